@@ -37,7 +37,7 @@ def declared_names(mode, outputs):
 class C07(C.PipelineCheck):
     id = 'C07'
     title = 'types.ts declares exactly the serde types reachable from the public surface'
-    required_covers = ('shape:cycle', 'shape:dag', 'root:param', 'root:return', 'root:result-ok', 'root:channel', 'root:payload', 'two-files', 'error-arm')
+    required_covers = ('shape:cycle', 'shape:dag', 'root:param', 'root:return', 'root:result-ok', 'root:channel', 'root:payload', 'two-files', 'error-arm', 'error-arm+event')
 
     def bounds(self, tier):
         q = tier != 'thorough'
@@ -128,6 +128,14 @@ class C07(C.PipelineCheck):
             if split:
                 e.cover('two-files')
             files, exp, allnames = G.build(shape, names, ectx, site, rctx, split=split, enum_leaf=(kind == 'shape' and e.choose(2) == 1), extra_root=extra, err_type=err)
+            if kind == 'error-arm' and e.choose(2) == 1:
+                # an event whose payload no command reaches: its types are declared, the error-only type still is not
+                files['src/evt.rs'] = (C.HEADER + '#[derive(Serialize, Deserialize, Clone)]\npub struct EvtOnly { pub stage: EvtStage }\n'
+                                       '#[derive(Serialize, Deserialize, Clone)]\npub enum EvtStage { One, Two }\n'
+                                       '#[tauri::command]\npub fn notify(app: tauri::AppHandle) {\n    app.emit("evt", EvtOnly { stage: EvtStage::One }).unwrap();\n}\n')
+                exp = list(exp) + ['EvtOnly', 'EvtStage']
+                tag += '+event'
+                e.cover('error-arm+event')
             nn, edges = G.SHAPES[shape]
             cyc = any(i in G.reachable(nn, edges, [b for (x, b) in edges if x == i]) for i in range(nn))
             e.cover('shape:cycle' if cyc else 'shape:dag')
